@@ -353,6 +353,16 @@ func Go(site string, f func()) {
 	}()
 }
 
+// WaitTasks sleeps (virtual time) until every task started with Go has exited, or max has
+// passed. synctest treats a goroutine that is still asleep when the root function returns as
+// deadlocked, so harnesses call this at the very end of Exec. Returns the tasks still alive.
+func (x *Run) WaitTasks(max time.Duration) []string {
+	for waited := time.Duration(0); len(x.alive) > 0 && waited < max; waited += 20 * time.Millisecond {
+		time.Sleep(20 * time.Millisecond)
+	}
+	return x.Alive()
+}
+
 // Alive returns the creation sites of tasks that have not exited, sorted.
 func (x *Run) Alive() []string {
 	var out []string
